@@ -4,7 +4,7 @@ CONSTANTS
   NetSeqs <- NetQ
   TagLens = {0, 63, 64, 65}
   TagHex = {"lower", "upper", "mixed", "nonhex", "zeros"}
-  TagPfx = {"0x", "0X", "none"}
+  TagPfx = {"0x", "0X", "none", "0x0x", "0x0X"}
   Suffixes = {"none", "/p", "?q", "#f"}
   Entries = {"parse", "core", "serde"}
   Pairs = 1
